@@ -140,7 +140,7 @@ def tlc(module, cfg, specdirs=None, workers=1, simulate=None, depth=None, tlc_se
         with open(os.path.join(wd, name), mode) as fh:
             fh.write(content)
     meta = os.path.join(wd, "meta")
-    jopts = ["-XX:+UseParallelGC", "-Xmx" + xmx]
+    jopts = ["-XX:+UseParallelGC", "-Xmx" + xmx, "-Djava.io.tmpdir=" + wd]   # TLC's own temp directories die with the scratch
     if xss:
         jopts.append("-Xss" + xss)
     if dfs:
